@@ -285,6 +285,31 @@ def check_config(acc, h, cfg, layer):
         acc.violation('C03:catchall-raised:%s' % type(res.raised).__name__, 'request to an unknown path raised %r' % (res.raised,), case)
     elif got != want:
         acc.violation('C03:catchall-trace', 'the catch-all route ran %r, expected %r' % (got, want), case)
+    # history: the application's meta page is looked at, then a route is added to the live application - it nests
+    # in the order the middlewares were given in
+    if layer.startswith('S1') and len(cfg['mws']) == 2 and all(m['level'] == 'app' for m in cfg['mws']) \
+            and not cfg.get('embedded'):
+        from clastic import MetaApplication, Route
+        from mc import wsgi
+        try:
+            app.add(('/_meta/', MetaApplication()))
+            for p in ('/_meta/', '/_meta/json/'):
+                h.reset()
+                wsgi.call(app, p, 'GET')
+            late = h.make_callable('late', {'params': []}, 'func')
+            h.scripts['late'] = 'response'
+            app.add(Route('/late', late))
+        except Exception as e:
+            acc.violation('C03:late-add:%s' % type(e).__name__, 'adding the meta application / a late route raised %r' % (e,), case)
+            return
+        res, trace = chain.run_request(h, '/late', 'GET')
+        acc.transitions += 3
+        got = skeleton(trace)
+        want = [tuple('late' if x == 'sib' else x for x in e) for e in sexp['trace']]
+        if res.raised is not None:
+            acc.violation('C03:late-raised:%s' % type(res.raised).__name__, 'request to the late route raised %r' % (res.raised,), case)
+        elif got != want:
+            acc.violation('C03:late-trace', 'a route added after the meta page had been served ran %r, expected %r' % (got, want), case)
 
 
 def nshards(tier):
@@ -304,6 +329,8 @@ def shard(tier, i, n, seed):
             if k % 256 == i and deadline_passed():
                 acc.extra['cap_hit'] = 1
                 return acc
+            if (k // n) % 3 == 1:
+                cfg = dict(cfg, mws_one_shot=True)      # middlewares= handed over as one-shot iterables
             check_config(acc, h, cfg, name)
             if k % 7919 == i:
                 acc.sample({'layer': name, 'cfg': cfg})
